@@ -604,6 +604,17 @@ pub fn wire_case(ws: &WireSeeds, r: &mut Rng) -> WireCase {
                 data = d2;
                 fault = f2;
             }
+            // a stale or hostile peer re-computes the checksum over its damaged descriptor, so the
+            // damage is not stopped at the checksum gate and reaches the parsers behind it
+            if kind == "descriptor" && r.chance(1, 2) {
+                if let Ok(s) = std::str::from_utf8(&data) {
+                    let body = s.split('#').next().unwrap_or("");
+                    let mut eng = miniscript::descriptor::checksum::Engine::new();
+                    if eng.input(body).is_ok() {
+                        data = format!("{}#{}", body, eng.checksum()).into_bytes();
+                    }
+                }
+            }
             WireCase { kind, fault, data, aux: vec![] }
         }
         "script" => {
